@@ -34,12 +34,12 @@ TRUSTED = ["h5py/HDF5 link-level API (Group.get(getlink=True), h5o.get_info addr
            "HDF5 semantics (link creation with intermediate groups, H5Ocopy, unlink, external link traversal) are modelled by the object store and validated only by the correspondence run"]
 ASSUMPTIONS = ["exception classes raised by h5py for the modelled failures are those observed with h5py 3.16 / HDF5 as installed",
                "HDF5's limit of 16 soft/external link traversals per lookup is modelled as a step budget of 64 (no history of the explored length builds a legitimate chain in between)"]
-RESIDUE = ["HDF5's own semantics are modelled, not verified", "file truncation by overwrite=True is the documented behaviour and is modelled as such",
+RESIDUE = ["HDF5's own semantics are modelled, not verified", "external links are explored from file B into file A only (mutual external links hit HDF5 file-handle conflicts outside the model)", "file truncation by overwrite=True is the documented behaviour and is modelled as such",
            "concurrent access / locking is not modelled"]
 
 PATHS = ["/", "/x", "/x/y", "/z"]
 PROBES = ["/", "/x", "/x/y", "/z", "/z/y", "/x/x", "/x/y/y", "/x/y/x", "/nope", "/x/nope", "/x/bins", "/x/pixels/count",
-          "/y", "/e", "/a/b"]
+          "/y", "/e", "/a", "/a/b"]
 STD_ATTRS = ("bin-size", "bin-type", "format", "format-version", "genome-assembly", "metadata", "nbins", "nchroms",
              "nnz", "storage-mode", "sum")
 
@@ -49,6 +49,7 @@ SIG_DANGLING = "dangling-link-listing-raises"
 SIG_MV_SUBTREE = "mv-into-own-subtree-loses-collection"
 SIG_MV_ROOT = "mv-of-root-collection-fails-and-leaves-hardlink"
 SIG_ISCOOLER_DANGLING = "is_cooler-raises-on-unresolvable-link"
+SIG_SOFT_BEHIND_EXT = "soft-link-created-behind-external-link"
 
 
 # ------------------------------------------------------------------ natural sort (own reading)
@@ -155,8 +156,7 @@ def oracle_step(d, op, outcome, S0, S1, listing, iscool):
             trunc = f
         if ok:
             if p:
-                par = S1["ident"].get((f, G.pstr(p[:-1])))
-                par = par if par is not None else _ident_of(d, f, p[:-1])
+                par = S0["ident"].get((f, G.pstr(p[:-1]))) or S1["ident"].get((f, G.pstr(p[:-1])))
                 if par:
                     exempt.add(par + (p[-1],))
             elif S1["root"][f]:
@@ -167,12 +167,12 @@ def oracle_step(d, op, outcome, S0, S1, listing, iscool):
             trunc = df
         if ok:
             if dp:
-                par = _ident_of(d, df, dp[:-1])
+                par = S0["ident"].get((df, G.pstr(dp[:-1]))) or S1["ident"].get((df, G.pstr(dp[:-1])))
                 if par:
                     exempt.add(par + (dp[-1],))
             elif S1["root"][df]:
                 exempt_obj.add(S1["root"][df])
-                for n in (S0["keys"].get((sf, G.pstr(sp))) or _keys_of(d, S0, sf, sp) or []):
+                for n in (S0["keys"].get((sf, G.pstr(sp))) or []):
                     exempt.add(S1["root"][df] + (n,))
             link, rename, soft = G.op_flags(op)
             if rename and sf == df and sp:
@@ -211,10 +211,22 @@ def oracle_step(d, op, outcome, S0, S1, listing, iscool):
     if ok and kind in ("cp", "mv", "ln", "lns"):
         sf, sp, df, dp = op["sf"], G.pstr(G.comps(op["sp"])), op["df"], G.pstr(G.comps(op["dp"]))
         src0 = S0["dig"].get((sf, sp))
-        if src0 is not None and (df, dp) in S1["dig"]:
+        src_in_trunc = trunc is not None and any(sl[0] == trunc for sl in S0["slots"].get((sf, sp), ()))
+        if src0 is not None and (df, dp) in S1["dig"] and not src_in_trunc:
             dst1 = S1["dig"][(df, dp)]
             if dst1 != src0:
-                sig = SIG_MV_SUBTREE if (kind == "mv" and sf == df and is_prefix(G.comps(sp), G.comps(dp)) and G.comps(sp)) else None
+                sig = None
+                if kind == "mv" and sf == df and G.comps(sp):
+                    # the destination lies inside the moved group itself (by name, or through a link to it)
+                    sid = S0["ident"].get((sf, sp))
+                    pc = G.comps(dp)[:-1]
+                    inside = is_prefix(G.comps(sp), G.comps(dp)) or any(
+                        S0["ident"].get((df, G.pstr(pc[:i]))) == sid for i in range(len(pc) + 1))
+                    if inside:
+                        sig = SIG_MV_SUBTREE
+                par_slots = S0["slots"].get((df, G.pstr(G.comps(dp)[:-1])), ())
+                if kind == "lns" and sf == df and any(sl[0] != df for sl in par_slots):
+                    sig = SIG_SOFT_BEHIND_EXT
                 fails.append(({"rule": "R1 destination does not read as the source", "dst": [df, dp], "src": [sf, sp],
                                "dst_after": _brief((dst1, None)), "src_before": _brief((src0, None))}, sig))
             else:
@@ -253,19 +265,6 @@ def _brief(x):
         return {"collection": False, "extra": extra}
     px = dg.get("pixels") or {}
     return {"collection": True, "count": px.get("count"), "attrs_nnz": [a for a in dg["attrs"] if a[0] in ("nnz", "sum")], "extra": extra}
-
-
-def _ident_of(d, f, p):
-    rw = G.RawWorld(d)
-    try:
-        st, f1, o, _ = rw.walk(f, p)
-        return rw.ident(f1, o) if st == "ok" else None
-    finally:
-        rw.close()
-
-
-def _keys_of(d, S0, f, p):
-    return None
 
 
 def api_read(d, f, p):
@@ -311,14 +310,14 @@ def observe_impl(d, full=False):
 
 
 def shallow_stack(fn, *a):
-    """call fn with the interpreter's recursion limit lowered to ~150 frames above the current depth:
+    """call fn with the interpreter's recursion limit lowered to ~90 frames above the current depth:
     a traversal that recurses without end raises the same RecursionError, only sooner (on a link cycle
     the default limit of 1000 lets the traversal visit tens of thousands of nodes first)"""
     import inspect
     import sys
     old = sys.getrecursionlimit()
     depth = len(inspect.stack(0))
-    sys.setrecursionlimit(depth + 150)
+    sys.setrecursionlimit(depth + 90)
     try:
         return fn(*a)
     finally:
@@ -371,6 +370,9 @@ def gen_op(rng, S, step, stream):
         sf, sp = rng.choice(colls)
     same = rng.random() < (0.8 if kind in ("mv", "ln") else 0.5)
     df = sf if same else ("B" if sf == "A" else "A")
+    if kind == "lns" and sf == "B":
+        df = "B"      # external links are only made from file B into file A (mutual external links run into
+        #               HDF5 file-handle conflicts that the store model does not describe)
     dp = rng.choice(PATHS)
     op = {"op": kind, "sf": sf, "sp": sp, "df": df, "dp": dp, "ow": rng.random() < 0.1,
           "s1": rng.random() < 0.5, "s2": rng.random() < 0.5}
@@ -379,11 +381,29 @@ def gen_op(rng, S, step, stream):
     return op
 
 
+_FROZEN = False
+
+
+def _freeze_once():
+    """move everything allocated by the imports out of the collector's way, so that the full collection
+    after a failed operation (gen_c15.guarded) only scans what the operation itself left behind"""
+    global _FROZEN
+    if not _FROZEN:
+        import gc
+        import cooler  # noqa: F401
+        from click.testing import CliRunner  # noqa: F401
+        from cooler.cli import cli  # noqa: F401
+        gc.collect()
+        gc.freeze()
+        _FROZEN = True
+
+
 def run_history(task):
     """worker: run (or generate-and-run) one history on the real code; returns ops, per-step
     observations and oracle failures"""
     import warnings
     warnings.filterwarnings("ignore")
+    _freeze_once()
     base, hid, seed, ops_in, nops, stream = task
     d = os.path.join(base, f"h{hid}")
     os.makedirs(d, exist_ok=True)
@@ -473,6 +493,10 @@ def corpus():
         ("D14b external link", [c(A, "/x", 3), o("lns", A, "/x", B, "/e")]),
         ("D14c dangling soft link after mv", [c(A, "/x", 4), o("lns", A, "/x", A, "/y"), o("mv", A, "/x", A, "/z")]),
         ("D14c dangling external link after re-create w", [c(A, "/x", 5), o("lns", A, "/x", B, "/x"), c(A, "/z", 6, "w")]),
+        ("is_cooler on a dangling soft link / below a soft link whose target path has a missing component",
+         [c(A, "/x/y", 4), o("lns", A, "/x/y", A, "/z"), o("mv", A, "/x", A, "/a")]),
+        ("soft link created below an external link lands in the other file",
+         [c(A, "/x/y", 4), c(B, "/z", 5), o("lns", A, "/x/y", B, "/x"), o("lns", B, "/z", B, "/x/y")]),
         # fixed D5: is_cooler on non-existent paths is False (probes /nope, /x/nope on every step)
         ("D5 regression", [c(A, "/x", 7), c(B, "/", 8)]),
         # root destination, occupied destinations, cross-file hard link, overwrite
@@ -526,7 +550,7 @@ def run(ctx):
     for name, ops in corpus():
         tasks.append((base, hid, 0, ops, None, "corpus"))
         hid += 1
-    n_main, n_missing = (1500, 300) if thorough else (330, 60)
+    n_main, n_missing = (1500, 300) if thorough else (260, 50)
     for _ in range(n_main):
         tasks.append((base, hid, rng.randrange(2 ** 31), None, rng.randint(2, 8 if thorough else 6), "existing"))
         hid += 1
